@@ -40,6 +40,11 @@ int64_t abtv_now_ns(void);
 void abtv_clock_advance_ns(int64_t ns);
 void abtv_clock_tick_ns(int64_t ns);   /* increment applied by each clock_gettime */
 
+/* observations that must be one snapshot: no hand-over at hooked operations
+ * between begin and end (serialized mode; the calls in between must not block) */
+void abtv_atomic_begin(void);
+void abtv_atomic_end(void);
+
 /* a scheduling point requested by the driver (e.g. inside work-unit bodies) */
 void abtv_point(void);
 /* mark the calling actor as not progressing (driver-level polling loop) */
